@@ -307,8 +307,19 @@ func (fr *Frame) dispatchCall(instr ssa.Instruction, cc *ssa.CallCommon, pos tok
 		}
 	}
 	if fn == nil {
+		if c := fr.C; c != nil && c.Callees != nil {
+			for _, n := range names {
+				if cs, ok := c.Callees[n]; ok {
+					fr.R.Trusted["assumed contract of dynamic callee "+n+" in "+shortName(c.Name)] = true
+					return fr.applyContract(cs, nil, cc, args, pos)
+				}
+			}
+		}
 		fr.R.note("dynamic call of %s: heap havocked", strings.Join(names, "/"))
 		return fr.havocCall(cc, args, true, pos)
+	}
+	if sk := fr.sortedKeysIdiom(fn, cc); sk != nil {
+		return *sk
 	}
 	if c := eng.ContractFor(fn); c != nil && !c.Inline {
 		var res Val
@@ -903,7 +914,7 @@ func (c *EvalCtx) heapCompNames(spec string) []string {
 func (c *EvalCtx) tryBool(e Expr) (t Term, ok bool) {
 	defer func() {
 		if x := recover(); x != nil {
-			if u, isU := x.(unsupportedErr); isU && strings.Contains(u.msg, "no such tracked call") {
+			if u, isU := x.(unsupportedErr); isU && (strings.Contains(u.msg, "no such tracked call") || strings.Contains(u.msg, "no local ")) {
 				ok = false
 				return
 			}
@@ -1050,4 +1061,62 @@ func constantString(c *ssa.Const) string {
 		return u
 	}
 	return s
+}
+
+// sortedKeysIdiom models slices.Sorted(maps.Keys(m)): the strictly ascending list of exactly m's keys (trusted).
+func (fr *Frame) sortedKeysIdiom(fn *ssa.Function, cc *ssa.CallCommon) *Val {
+	o := fr.fnOrigin(fn)
+	if o.String() != "slices.Sorted" || len(cc.Args) != 1 {
+		return nil
+	}
+	inner, ok := cc.Args[0].(*ssa.Call)
+	if !ok || inner.Call.StaticCallee() == nil || fr.fnOrigin(inner.Call.StaticCallee()).String() != "maps.Keys" {
+		return nil
+	}
+	mv := inner.Call.Args[0]
+	mt, ok := types.Unalias(mv.Type()).Underlying().(*types.Map)
+	if !ok {
+		return nil
+	}
+	ks, _ := fr.mapSorts(mt)
+	m := fr.termOf(fr.val(mv))
+	sc := fr.R.Sc
+	fr.R.Trusted["slices.Sorted(maps.Keys(m)) is the strictly ascending list of exactly the keys of m"] = true
+	fr.bumpTop()
+	st := types.NewSlice(mt.Key())
+	res := fr.freshTyped("sortedkeys", st)
+	fr.R.Heap.NoteType(elemsComp(mt.Key()), mt.Key())
+	E := fr.R.Heap.Get(fr.st, elemsComp(mt.Key()), ArraySort(SInt, ArraySort(SInt, ks)))
+	row := fr.define("skrow", Select(E, app(SInt, "s-arr", res), ArraySort(SInt, ks)))
+	off := app(SInt, "s-off", res)
+	n := app(SInt, "s-len", res)
+	dom := fr.define("skdom", fr.mapDom(m, mt))
+	less := func(a, b string) string {
+		name := "sf.before." + sanitize(sortKey(ks))
+		sc.DeclareFun(name, []Sort{ks, ks}, SBool)
+		return fmt.Sprintf("(%s %s %s)", name, a, b)
+	}
+	i, j, k := fmt.Sprintf("i?%d", sc.n), fmt.Sprintf("j?%d", sc.n+1), fmt.Sprintf("k?%d", sc.n+2)
+	sc.n += 3
+	// every listed key is a key of m
+	fr.assume(T(fmt.Sprintf("(forall ((%s Int)) (! (=> (and (<= %s %s) (< %s (+ %s %s))) (select %s (select %s %s))) :pattern ((select %s %s))))", i, off.S, i, i, off.S, n.S, dom.S, row.S, i, row.S, i), SBool))
+	// strictly ascending (absolute positions)
+	fr.assume(T(fmt.Sprintf("(forall ((%s Int) (%s Int)) (! (=> (and (<= %s %s) (< %s %s) (< %s (+ %s %s))) %s) :pattern ((select %s %s) (select %s %s))))",
+		i, j, off.S, i, i, j, j, off.S, n.S, less(fmt.Sprintf("(select %s %s)", row.S, i), fmt.Sprintf("(select %s %s)", row.S, j)), row.S, i, row.S, j), SBool))
+	// every key of m is listed
+	fr.assume(T(fmt.Sprintf("(forall ((%s %s)) (! (=> (select %s %s) (exists ((%s Int)) (and (<= %s %s) (< %s (+ %s %s)) (= (select %s %s) %s)))) :pattern ((select %s %s))))",
+		k, ks, dom.S, k, i, off.S, i, i, off.S, n.S, row.S, i, k, dom.S, k), SBool))
+	fr.assume(Implies(Eq(m, Nil), Eq(n, IntLit(0))))
+	fr.assume(Eq(n, Ite(Eq(m, Nil), IntLit(0), fr.mapLen(m))))
+	// the result has a private backing array
+	fr.assume(Implies(Lt(IntLit(0), n), Lt(fr.entryTop(), app(SInt, "s-arr", res))))
+	v := TV(res)
+	return &v
+}
+
+func (fr *Frame) entryTop() Term {
+	if fr.R.topFrame != nil && fr.R.topFrame.entry != nil {
+		return fr.R.topFrame.entry.top
+	}
+	return IntLit(0)
 }
